@@ -75,7 +75,22 @@ def run(c):
     rt.replay_witnesses(c, oracle)
     cases, dis, stats = rt.run_rt(c, oracle, n, k, gen_hist=rt.flushing(hrt.gen_history),
                                   known_classifier=rt.known_by(c, [('F9', rt.f9_territory)]))
-    rt.decide(c, ob, dis)
+    # bit-packed packet headers / contexts (feature field types with sub-byte alignments and odd sizes)
+    cases_b, dis_b, stats_b = rt.run_rt(c, oracle, max(3, n // 2), k, gen_hist=rt.flushing(hrt.gen_history),
+                                        known_classifier=rt.known_by(c, [('F9', rt.f9_territory)]),
+                                        label='H-runtime (bit-packed features)', profile='rt-bits', seed_base=300)
+    dis = dis + dis_b
+    # layouts of the packet header / context (feature field types with every alignment) without compiling: the
+    # operation trees must be the model's; if not, the differing configuration is built and run under this oracle
+    from checks import lycommon as ly
+    bad = ly.op_tree_sweep(c, 300 if c.tier == 'thorough' else 60, seed_base=900)
+    if bad and not c.violations:
+        cs, (qq, exp, got, lab) = bad
+        if not ly.hunt_layout_failure(c, cs, 'C04', nhist=30, oracle=oracle):
+            c.violation({'property': 'C04', 'kind': f'correspondence broken ({lab}): the operation tree differs from the Lean '
+                         'builder, and no malformed delivered packet was found', 'obligation': f'H-layout {lab} stream',
+                         'config_yaml': cs.text, 'query': qq, 'implementation': exp, 'model': got}, found_input=False)
+    rt.decide(c, ob, dis, oracle=oracle, known_classifier=rt.known_by(c, [('F9', rt.f9_territory)]))
     if c.tier == 'thorough' and ob['ok']:
         ok, log = c.leanchecker(['BVM.Props.C04'])
         if not ok:
